@@ -32,13 +32,15 @@ def queries(rng, st, kind):
     return out
 
 
-def graph_scripts(ctx, g, kinds):
-    """kinds: list of (kind, elem); the graph's cap selects vec (0) or svec (N)"""
+def graph_scripts(ctx, g, kinds, keep=False):
+    """kinds: list of (kind, elem); the graph's cap selects vec (0) or svec (N); keep selects the walks of that flavour"""
     walks, ncov, total = core.edge_cover_walks(g, ctx.rng, max_len=200)
     out = []
     for wi, w in enumerate(walks):
         st0 = core.parse_state(g.state[w[0][1]])
         cap = st0["cap"]
+        if bool(st0.get("keep", False)) != keep:
+            continue
         for (kind, elem) in kinds:
             if (kind == "vec") != (cap == 0):
                 continue
@@ -53,7 +55,8 @@ def graph_scripts(ctx, g, kinds):
     return out, ncov, total
 
 
-def random_script(rng, kind, elem, cap, nops):
+def random_script(rng, kind, elem, cap, nops, old_iface=False):
+    """old_iface: the std_portable static_vector (no range/list constructor, no erase; its move constructor keeps the source's size)"""
     lines = ["R %s %s %d" % (kind, elem, cap)]
     ex = [False, False]; el = [[], []]
     def cut(s): return s if cap == 0 else s[:cap]
@@ -63,19 +66,22 @@ def random_script(rng, kind, elem, cap, nops):
         if not ex[c]:
             r = rng.random()
             if r < 0.4: lines.append("Create %d" % c); ex[c] = True; el[c] = []
+            elif (r < 0.7 or not ex[d]) and old_iface: lines.append("Create %d" % c); ex[c] = True; el[c] = []
             elif r < 0.7 or not ex[d]:
                 s = [rng.randrange(1, 100) for _ in range(rng.randrange(0, (2 * cap + 1) if cap else 7))]
                 il = 1 if len(s) <= 5 and rng.random() < 0.5 else 0
                 lines.append("CreateFrom %d %s %d" % (c, fmt(s), il)); ex[c] = True; el[c] = cut(s)
             elif r < 0.85: lines.append("CopyCtor %d %d" % (c, d)); ex[c] = True; el[c] = list(el[d])
-            else: lines.append("MoveCtor %d %d" % (c, d)); ex[c] = True; el[c] = list(el[d]); el[d] = []
+            else:
+                lines.append("MoveCtor %d %d" % (c, d)); ex[c] = True; el[c] = list(el[d])
+                if not old_iface: el[d] = []
             continue
         n = len(el[c]); r = rng.random()
         if r < 0.18: lines.append("PushBack %d %d" % (c, v)); el[c] = cut(el[c] + [v])
         elif r < 0.26: lines.append("EmplaceBack %d %d" % (c, v)); el[c] = cut(el[c] + [v])
         elif r < 0.38 and kind == "vec":
             p = rng.randrange(0, n + 1); lines.append("%s %d %d %d" % (rng.choice(["Insert", "Emplace"]), c, p, v)); el[c].insert(p, v)
-        elif r < 0.50:
+        elif r < 0.50 and not old_iface:
             a = rng.randrange(0, n + 1); b = rng.randrange(a, n + 1); lines.append("Erase %d %d %d" % (c, a, b)); del el[c][a:b]
         elif r < 0.54 and kind == "vec" and n:
             a = rng.randrange(0, n); lines.append("EraseAt %d %d" % (c, a)); del el[c][a]
